@@ -112,17 +112,17 @@ def impl_key(im):
 
 
 def first_atom(g):
-    """the first trait atom in evaluation order with the forall variables it is under, or None"""
+    """the trait atom of a goal that is a single (possibly quantified / negated) trait atom, else None:
+    only such an atom is certain to be handed to the database (a conjunction may fail on another
+    conjunct first, the solvers differ in the order; `if` elaborates the hypotheses first)"""
     k = g[0]
     if k == "atom":
         return g[1]
-    if k == "and":
-        return first_atom(g[1][0])
     if k in ("forall", "exists"):
         return first_atom(g[2])
     if k == "not":
         return first_atom(g[1])
-    return None          # `if`: the hypotheses are elaborated first
+    return None
 
 
 def goal_names(text):
@@ -232,7 +232,7 @@ def run(ctx):
                     in_first = set(re.findall(r"\b[A-Z]\w*", pg.atom_text(fa, pg._gvar))) if fa else None
                     f = None
                     if missing and (in_first is None or missing[0] not in in_first):
-                        f = ctx.match_known(None, "F11-name-outside-first-atom")
+                        f = ctx.match_known(None, "F11-name-outside-single-atom")
                     if f:
                         ctx.known_finding(f, gt)
                         stats["known:F11-rest"] += 1
